@@ -73,7 +73,7 @@ class Class:
 
 
 class Module:
-    __slots__ = ("name", "path", "relpath", "tree", "source", "funcs", "classes", "imports",
+    __slots__ = ("name", "path", "relpath", "tree", "source", "funcs", "classes", "imports", "renamed_locals",
                  "digest", "lines")
 
     def __init__(self, name, path, relpath, source):
@@ -82,7 +82,9 @@ class Module:
         self.relpath = relpath
         self.source = source
         self.lines = source.splitlines()
-        self.tree = canonicalise(ast.parse(source, filename=path))
+        raw = ast.parse(source, filename=path)
+        self.renamed_locals = _alpha_normalise(raw, relpath)  # first: the canonical operand order depends on names
+        self.tree = canonicalise(raw)
         self.funcs: dict[str, Func] = {}  # top-level functions by name
         self.classes: dict[str, Class] = {}
         self.imports: dict[str, str] = {}  # local alias -> dotted target
@@ -220,6 +222,27 @@ class _CanonStmts(ast.NodeTransformer):
             out.append(st)
             i += 1
         return out
+
+
+_LOCALNAMES: dict | None = None
+
+
+def _alpha_normalise(tree: ast.AST, relpath: str) -> int:
+    """rename recognised function locals back to the reference names (sa/alpha.py)"""
+    global _LOCALNAMES
+    if os.environ.get("VERIF_NO_ALPHA"):
+        return 0
+    if _LOCALNAMES is None:
+        import json
+        try:
+            _LOCALNAMES = json.load(open(os.path.join(os.path.dirname(os.path.abspath(__file__)), "localnames.json")))
+        except OSError:
+            _LOCALNAMES = {}
+    ref = _LOCALNAMES.get(relpath)
+    if not ref:
+        return 0
+    from . import alpha
+    return alpha.normalise(tree, ref)
 
 
 def canonicalise(tree: ast.AST) -> ast.AST:
